@@ -5,6 +5,7 @@ import (
 	"go/token"
 	"go/types"
 	"os"
+	"regexp"
 	"sort"
 	"strings"
 
@@ -650,7 +651,7 @@ func hrRetryCounterStore(w *World, r *Report, rule string) {
 		r.Undec(rule, "APIStream.SetContext", token.NoPos, "function not found")
 	} else {
 		st := fieldStores(f, "context")
-		ok := len(st) == 1 && len(CondsOf(st[0].Block())) == 0 && st[0].Val == ssa.Value(f.Params[1])
+		ok := len(st) == 1 && len(CondsOf(st[0].Block())) == 0 && alwaysRuns(st[0]) && st[0].Val == ssa.Value(f.Params[1])
 		r.Check(ok, rule, "APIStream.SetContext/always-replaces", f.Pos(), "SetContext stores the given context unconditionally (each flow executed for a transaction works on its own context)")
 	}
 }
@@ -1046,6 +1047,31 @@ func hrParentWalk(w *World, r *Report, rule string) {
 			ok = false
 		}
 	}
+	// the id recorded as "has a parent reference" is the id the walk is at (not the next one)
+	var asked ssa.Value
+	for _, c := range CallsIn(f, false, "ResourceManagement).GetQuota", "ResourceManagementI).GetQuota") {
+		for _, h := range loopHeadersOf(f) {
+			if loopHas(h, c.Block()) {
+				asked = margs(c)[0]
+			}
+		}
+	}
+	nRec, okRec := 0, true
+	Instrs(f, func(in ssa.Instruction) {
+		mu, isMU := in.(*ssa.MapUpdate)
+		if !isMU || Path(mu.Map) != "param:result" {
+			return
+		}
+		for _, h := range loopHeadersOf(f) {
+			if loopHas(h, mu.Block()) {
+				nRec++
+				if asked == nil || mu.Key != asked {
+					okRec = false
+				}
+			}
+		}
+	})
+	r.Check(okRec && nRec == 1, rule, "addParentsQuotaReferences/records-the-parent-it-is-at", f.Pos(), "the id stored in the result is the same value GetQuota is asked for in that iteration (the direct parent is recorded, the root's empty parent id is not)")
 	r.Check(ok && n == 1, rule, "addParentsQuotaReferences/asks-for-the-parent-it-is-at", f.Pos(), "inside the loop GetQuota is called with the parent id that advances with the loop (asking for the starting quota again never terminates)")
 }
 
@@ -3196,4 +3222,406 @@ func hrGlobalUnmanagedWithEndpoints(w *World, r *Report, rule string) {
 		}
 	}
 	r.Check(ok, rule, "UpdatePoliciesData/global-unmanaged-at-once-when-needed", f.Pos(), "unmanageGlobalVoided runs under unmanageImmediately and the manage-all difference only (further conditions: %v)", extra)
+}
+
+// ---------------------------------------------------------------------------
+// part 9: tenth wave (tiny edits two or three calls away)
+
+// hrWildcardConstant: the expression a trailing wildcard is registered as matches the bare prefix
+// and everything below it (the URL tree accepts `host` for pattern `host/*`).
+func hrWildcardConstant(w *World, r *Report, rule string) {
+	c := w.constOf(pkgConfig, "RegexToReplaceWildcard")
+	if c == nil {
+		r.Undec(rule, "RegexToReplaceWildcard", token.NoPos, "constant not found")
+		return
+	}
+	s := constant.StringVal(c)
+	re, err := regexp.Compile("^prefix" + s + "$")
+	ok := err == nil
+	var miss []string
+	if ok {
+		for _, u := range []string{"prefix", "prefix/", "prefix/a", "prefix/a/b"} {
+			if !re.MatchString(u) {
+				ok = false
+				miss = append(miss, u)
+			}
+		}
+		if re.MatchString("prefixed") {
+			ok = false
+			miss = append(miss, "matches prefixed")
+		}
+	}
+	r.Check(ok, rule, "RegexToReplaceWildcard/matches-prefix-and-everything-below", token.NoPos, "the wildcard is registered as %q: it matches the bare prefix and every path below it, nothing else (not so for %v)", s, miss)
+}
+
+// hrProcessorCallsOnlyItsOperation: the Inc (Dec) processor performs Inc (Dec) on the quota and nothing else
+// (asking `Allowed` consumes the per-request memo of the quota and its ancestors).
+func hrProcessorCallsOnlyItsOperation(w *World, r *Report, rule string) {
+	for _, e := range []struct{ pkg, fn, op string }{
+		{"lunar/engine/streams/processors/quota-processor-inc", "quotaProcessorInc.Execute", "Inc"},
+		{"lunar/engine/streams/processors/quota-processor-dec", "quotaProcessorDec.Execute", "Dec"},
+	} {
+		f := w.Fn(e.pkg, e.fn)
+		if f == nil {
+			r.Undec(rule, e.fn, token.NoPos, "function not found")
+			continue
+		}
+		ops := map[string]bool{}
+		Instrs(f, func(in ssa.Instruction) {
+			c, isC := in.(ssa.CallInstruction)
+			if !isC {
+				return
+			}
+			id := calleeID(c)
+			for _, m := range []string{"Inc", "Dec", "Allowed", "Reset", "Update"} {
+				if strings.HasSuffix(id, "QuotaResourceI)."+m) || strings.HasSuffix(id, "ResourceAdmI)."+m) {
+					ops[m] = true
+				}
+			}
+		})
+		r.Check(len(ops) == 1 && ops[e.op], rule, e.fn+"/only-"+e.op, f.Pos(), "the processor calls %s on the quota and no other admission operation (found %v)", e.op, keysOf(ops))
+	}
+}
+
+// hrSetInt64Stores: a counter write is a write, for every value.
+func hrSetInt64Stores(w *World, r *Report, rule string) {
+	f := w.Fn(pkgLctx, "memoryState.setInt64")
+	if f == nil {
+		r.Undec(rule, "memoryState.setInt64", token.NoPos, "function not found")
+		return
+	}
+	cs := CallsIn(f, false, "ContextI).Set", "contextMemory).Set")
+	ok := len(cs) == 1 && len(CondsOf(cs[0].Block())) == 0 && alwaysRuns(cs[0])
+	if ok {
+		a := margs(cs[0])
+		ok = Path(a[0]) == "param:key" && Path(a[1]) == "param:value"
+	}
+	r.Check(ok, rule, "memoryState.setInt64/stores-every-value", f.Pos(), "setInt64 stores (key, value) unconditionally (a zero written over a full counter must replace it)")
+}
+
+// hrCacheFailureDoesNotFailTheTransaction: a response whose cache key cannot be built is passed on, not failed.
+func hrCacheFailureDoesNotFailTheTransaction(w *World, r *Report, rule string) {
+	f := w.Fn("lunar/engine/streams/processors/write-cache", "writeCacheProcessor.Execute")
+	if f == nil {
+		r.Undec(rule, "writeCacheProcessor.Execute", token.NoPos, "function not found")
+		return
+	}
+	n, ok := 0, true
+	for _, alt := range ReturnAlts(f, 1) {
+		keyFailed := false
+		for _, rel := range relsOfConds(alt.Conds) {
+			if p := Path(rel.L); rel.Op == "!=" && isNilConst(rel.R) && strings.HasPrefix(p, "utils.BuildSharedMemoryKey(") && strings.HasSuffix(p, "#1") {
+				keyFailed = true
+			}
+		}
+		if keyFailed {
+			n++
+			if !isNilConst(alt.Val) {
+				ok = false
+			}
+		}
+	}
+	r.Check(ok && n >= 1, rule, "writeCacheProcessor.Execute/unbuildable-key-is-not-an-error", f.Pos(), "when the cache key cannot be built the processor returns a no-op without an error (an error aborts the response walk and the quota's Dec never runs)")
+}
+
+// hrSetTypeStores: the stream's type is what it was last set to.
+func hrSetTypeStores(w *World, r *Report, rule string) {
+	f := w.Fn(pkgStreamTypes, "APIStream.SetType")
+	if f == nil {
+		r.Undec(rule, "APIStream.SetType", token.NoPos, "function not found")
+		return
+	}
+	st := fieldStores(f, "streamType")
+	ok := len(st) == 1 && len(CondsOf(st[0].Block())) == 0 && alwaysRuns(st[0]) && st[0].Val == ssa.Value(f.Params[1])
+	r.Check(ok, rule, "APIStream.SetType/always-stores", f.Pos(), "SetType stores the given type unconditionally (executeReq switches an answered request to the response side before any response message exists)")
+}
+
+// hrSystemFlowsLookedUpAlways: a node's system flows do not depend on the node having a user flow.
+func hrSystemFlowsLookedUpAlways(w *World, r *Report, rule string) {
+	f := w.Fn(pkgFilter, "FilterNode.getFlow")
+	if f == nil {
+		r.Undec(rule, "FilterNode.getFlow", token.NoPos, "function not found")
+		return
+	}
+	cs := CallsIn(f, false, "FilterNode).getSystemFlow")
+	ok := len(cs) >= 2
+	for _, c := range cs {
+		for _, cd := range CondsOf(c.Block()) {
+			if strings.Contains(Path(cd.V), "getUserFlow(") {
+				ok = false
+			}
+		}
+	}
+	r.Check(ok, rule, "FilterNode.getFlow/system-flows-independent-of-user-flow", f.Pos(), "getSystemFlow(start/end) is evaluated whether or not the node has a valid user flow (%d calls): a quota's flows on host/* wrap a user flow declared on host/items", len(cs))
+}
+
+// hrFlowDataComplete: a resource's flow data, where a strategy has one, is complete.
+func hrFlowDataComplete(w *World, r *Report, rule string) {
+	n := 0
+	for _, f := range w.lunarFns {
+		if f.Origin() != nil || !strings.HasPrefix(fnPkgPath(f), "lunar/engine/streams/resources") || strings.HasSuffix(w.Fset.Position(f.Pos()).Filename, "_test.go") {
+			continue
+		}
+		Instrs(f, func(in ssa.Instruction) {
+			a, isA := in.(*ssa.Alloc)
+			if !isA || structOf(a.Type()) != "ResourceFlowData" || !a.Heap {
+				return
+			}
+			if singleFieldStoreByName(a, "ID") == nil && singleFieldStoreByName(a, "Filter") == nil {
+				return
+			}
+			n++
+			pc := singleFieldStoreByName(a, "ProcessorsConnections")
+			r.Check(pc != nil && !isNilConst(pc), rule, "ResourceFlowData/"+shortFn(fnID(outermost(f)))+"/connections-initialised", a.Pos(), "a ResourceFlowData that is filled in has its ProcessorsConnections set (addSystemFlow calls it for every resource that has flow data)")
+		})
+	}
+	r.Check(n >= 1, rule, "ResourceFlowData/literals", token.NoPos, "%d flow-data literals inspected", n)
+}
+
+// hrFirstElementOnlyWhenPresent: arr[0] is read only where the array has an element.
+func hrFirstElementOnlyWhenPresent(w *World, r *Report, rule string) {
+	f := w.Fn("lunar/engine/streams/processors/utils", "BuildSharedMemoryKey")
+	if f == nil {
+		r.Undec(rule, "BuildSharedMemoryKey", token.NoPos, "function not found")
+		return
+	}
+	n := 0
+	Instrs(f, func(in ssa.Instruction) {
+		ia, isIA := in.(*ssa.IndexAddr)
+		if !isIA || !isIntConst(ia.Index, 0) {
+			return
+		}
+		if _, isSlice := ia.X.Type().Underlying().(*types.Slice); !isSlice {
+			return
+		}
+		n++
+		ok := false
+		for _, rel := range Rels(ia.Block()) {
+			l, isLen := peel(rel.L).(*ssa.Call)
+			if !isLen {
+				continue
+			}
+			if b, isB := l.Call.Value.(*ssa.Builtin); !isB || b.Name() != "len" || !sameVal(l.Call.Args[0], ia.X) {
+				continue
+			}
+			k, isK := constInt(rel.R)
+			if !isK {
+				continue
+			}
+			switch rel.Op {
+			case "==":
+				ok = ok || k >= 1
+			case ">":
+				ok = ok || k >= 0
+			case ">=":
+				ok = ok || k >= 1
+			case "!=":
+				ok = ok || k == 0
+			}
+		}
+		r.Check(ok, rule, "BuildSharedMemoryKey/first-element-only-of-a-non-empty-list", posOf(ia), "x[0] is read under a condition that makes the list non-empty")
+	})
+	r.Check(n >= 1, rule, "BuildSharedMemoryKey/first-element-reads", f.Pos(), "%d reads of a first element inspected", n)
+}
+
+// hrLabelMapNeverNil: the label map handed to the metric attribute builders is a map on every path.
+func hrLabelMapNeverNil(w *World, r *Report, rule string) {
+	f := w.Fn("lunar/engine/metrics", "LabelManager.GetAPICallAttributes")
+	if f == nil {
+		r.Undec(rule, "GetAPICallAttributes", token.NoPos, "function not found")
+		return
+	}
+	ok, n := true, 0
+	for _, alt := range ReturnAlts(f, 1) {
+		n++
+		if _, isMk := peel(unhelp(alt.Val)).(*ssa.MakeMap); !isMk {
+			ok = false
+		}
+	}
+	r.Check(ok && n >= 1, rule, "GetAPICallAttributes/label-map-is-a-map-on-every-return", f.Pos(), "every return gives a made map (GetProcessorMetricsFullAttributes writes the gateway id into it)")
+}
+
+// hrQueuedRequestIdentity: a waiting request is known to the queue by its own id.
+func hrQueuedRequestIdentity(w *World, r *Report, rule string) {
+	f := w.Fn(pkgQProc, "Request.GetID")
+	if f == nil {
+		r.Undec(rule, "queue.Request.GetID", token.NoPos, "function not found")
+		return
+	}
+	ok, n := true, 0
+	for _, alt := range ReturnAlts(f, 0) {
+		n++
+		if !isCallTo0(alt.Val, "APIStreamI).GetID") {
+			ok = false
+		}
+	}
+	r.Check(ok && n == 1, rule, "queue.Request.GetID/own-transaction-id", f.Pos(), "the key of a waiting request is apiStream.GetID() (two requests of one sequence wait side by side)")
+}
+
+// hrOutputParamsWrittenInPlace: an Extract*Param helper fills the object it was given.
+func hrOutputParamsWrittenInPlace(w *World, r *Report, rule string) {
+	f := w.Fn("lunar/engine/streams/processors/utils", "ExtractMapOfInt64Param")
+	if f == nil {
+		r.Undec(rule, "ExtractMapOfInt64Param", token.NoPos, "function not found")
+		return
+	}
+	ok, n := true, 0
+	Instrs(f, func(in ssa.Instruction) {
+		if mu, isMU := in.(*ssa.MapUpdate); isMU {
+			n++
+			m := mu.Map
+			if u, isU := m.(*ssa.UnOp); isU && u.Op == token.MUL {
+				if a, isA := u.X.(*ssa.Alloc); isA { // the parameter, spilled because its address is taken
+					if sv := singleStore(a); sv != nil {
+						m = sv
+					} else {
+						m = nil // assigned again inside the helper
+					}
+				}
+			}
+			if _, isP := m.(*ssa.Parameter); !isP {
+				ok = false
+			}
+		}
+	})
+	r.Check(ok && n >= 1, rule, "ExtractMapOfInt64Param/fills-the-callers-map", f.Pos(), "the values are written into the map parameter itself (a map made inside the helper is lost: priority groups would silently be empty)")
+}
+
+// hrHeadersAliasing: two places rely on the action and the message sharing one header map.
+func hrHeadersAliasing(w *World, r *Report, rule string) {
+	if f := w.Fn("lunar/engine/services/authentication", "OAuth.OnRequest"); f == nil {
+		r.Undec(rule, "OAuth.OnRequest", token.NoPos, "function not found")
+	} else {
+		ok, n := true, 0
+		for _, alt := range ReturnAlts(f, 0) {
+			if isNilConst(alt.Val) || structOf(peel(alt.Val).Type()) != "GenerateRequestAction" {
+				continue
+			}
+			n++
+			hs := litField(alt.Val, "HeadersToSet")
+			rm := litField(alt.Val, "HeadersToRemove")
+			if hs == nil || !strings.HasSuffix(Path(hs), "onRequest.Headers") || rm == nil {
+				ok = false
+			}
+			if c, isC := peel(hs).(*ssa.Call); isC && c != nil {
+				ok = false
+			}
+		}
+		r.Check(ok && n >= 1, rule, "OAuth.OnRequest/headers-to-set-is-the-request-map", f.Pos(), "GenerateRequestAction.HeadersToSet is onRequest.Headers itself: HeadersToRemove takes effect by deleting from that shared map when the request is updated")
+	}
+	if f := w.Fn(pkgRunner, "getOnResponseRunResult"); f == nil {
+		r.Undec(rule, "getOnResponseRunResult", token.NoPos, "function not found")
+	} else {
+		cs := CallsIn(f, false, "runner.runOnResponse")
+		ok := len(cs) == 1 && Path(cs[0].Common().Args[0]) == "param:onResponse"
+		if ok {
+			if _, isC := peel(cs[0].Common().Args[0]).(*ssa.Call); isC {
+				ok = false
+			}
+		}
+		r.Check(ok, rule, "getOnResponseRunResult/remedies-see-the-callers-message", f.Pos(), "runOnResponse is given onResponse itself (its header map is the one the rebuilt early response is read from)")
+	}
+	if f := w.Fn(pkgRemedies, "plainTextTooManyRequestsAction"); f != nil {
+		ok, n := true, 0
+		for _, alt := range ReturnAlts(f, 0) {
+			n++
+			h := litField(alt.Val, "Headers")
+			if _, isMk := peel(h).(*ssa.MakeMap); h == nil || !isMk {
+				ok = false
+			}
+		}
+		r.Check(ok && n == 1, rule, "plainTextTooManyRequestsAction/fresh-header-map", f.Pos(), "every rejection gets its own header map (response remedies write their edits into it)")
+	}
+}
+
+// hrNotifyHubInBackground: waiting for the Hub does not hold up a reload.
+func hrNotifyHubInBackground(w *World, r *Report, rule string) {
+	f := w.Fn(pkgStreams, "Stream.notifyHub")
+	if f == nil {
+		r.Undec(rule, "Stream.notifyHub", token.NoPos, "function not found")
+		return
+	}
+	nGo, nCall := 0, 0
+	Instrs(f, func(in ssa.Instruction) {
+		switch x := in.(type) {
+		case *ssa.Go:
+			if strings.Contains(calleeID(x), "notifyHubWhenAvailable") {
+				nGo++
+			}
+		case *ssa.Call:
+			if strings.Contains(calleeID(x), "notifyHubWhenAvailable") {
+				nCall++
+			}
+		}
+	})
+	r.Check(nGo >= 1 && nCall == 0, rule, "Stream.notifyHub/waits-in-the-background", f.Pos(), "notifyHubWhenAvailable is started with `go` (%d) and never called inline (%d): initializeStreams must return so that the new endpoints are registered and the handler answers", nGo, nCall)
+}
+
+// hrBackupChecksumKeys: the checksum of a backed-up file is kept under the key of its content.
+func hrBackupChecksumKeys(w *World, r *Report, rule string) {
+	f := w.Fn(pkgConfig, "FileSystemBackUp.SetMD5OfStorage")
+	if f == nil {
+		r.Undec(rule, "SetMD5OfStorage", token.NoPos, "function not found")
+		return
+	}
+	ok, n := true, 0
+	Instrs(f, func(in ssa.Instruction) {
+		mu, isMU := in.(*ssa.MapUpdate)
+		if !isMU || !strings.HasSuffix(Path(mu.Map), ".dataMD5") {
+			return
+		}
+		n++
+		k := peel(mu.Key)
+		ex, isEx := k.(*ssa.Extract)
+		if !isEx || ex.Index != 1 {
+			ok = false
+			return
+		}
+		if nx, isNx := ex.Tuple.(*ssa.Next); !isNx || !strings.HasSuffix(Path(nx.Iter.(*ssa.Range).X), ".data") {
+			ok = false
+		}
+	})
+	r.Check(ok && n == 1, rule, "SetMD5OfStorage/checksum-under-the-content-key", f.Pos(), "dataMD5[key] for the very key of data being walked (GetDiff looks the two maps up with one key)")
+}
+
+// hrArrivalTimestampExact: a waiter's arrival time is the clock reading, unrounded.
+func hrArrivalTimestampExact(w *World, r *Report, rule string) {
+	f := w.Fn(pkgQueue, "NewRequest")
+	if f == nil {
+		r.Undec(rule, "queue.NewRequest", token.NoPos, "function not found")
+		return
+	}
+	ok, n := true, 0
+	for _, alt := range ReturnAlts(f, 0) {
+		n++
+		ts := litField(alt.Val, "timestamp")
+		if ts == nil || !isCallTo0(ts, "Clock).Now") {
+			ok = false
+		}
+	}
+	r.Check(ok && n == 1, rule, "queue.NewRequest/arrival-is-the-clock-reading", f.Pos(), "timestamp is clock.Now() as read (rounded arrivals tie, and ties are broken by heap position, not by arrival)")
+}
+
+// hrFilterExtendDedupAgainstItself: a value is added to a filter unless that filter already has it.
+func hrFilterExtendDedupAgainstItself(w *World, r *Report, rule string) {
+	f := w.Fn(pkgSCfg, "Filter.Extend")
+	if f == nil {
+		r.Undec(rule, "Filter.Extend", token.NoPos, "function not found")
+		return
+	}
+	n, ok := 0, true
+	var bad []string
+	Instrs(f, func(in ssa.Instruction) {
+		c, isC := in.(ssa.CallInstruction)
+		if !isC || !(isCallTo(c, "slices.Contains") || strings.Contains(calleeID(c), "ContainsKeyValue")) {
+			return
+		}
+		n++
+		p := Path(c.Common().Args[0])
+		if !strings.HasPrefix(p, "param:f.") {
+			ok = false
+			bad = append(bad, p)
+		}
+	})
+	r.Check(ok && n >= 4, rule, "Filter.Extend/duplicate-test-against-the-extended-filter", f.Pos(), "each of the %d membership tests looks in the filter being extended, not in the one it is extended from (%v)", n, bad)
 }
